@@ -157,23 +157,26 @@ Definition dec_of_N (n : N) : str := dec_digits (S (N.to_nat (N.log2 n))) n [].
 Definition dec_of_Z (z : Z) : str :=
   if Z.ltb z 0 then 45 :: dec_of_N (Z.abs_N z) else dec_of_N (Z.to_N z).
 
-(* TypedDecimal.String() = strDecimal64(Decimal64()): "%d.%0<precision>d" of the truncated quotient and the
-   absolute remainder (so -0.5 prints as 0.5, as the code does).  Precisions above 18 overflow the int64
-   divisor in the Go code and are not modelled (None). *)
+(* utils.StrDecimal64(Decimal64()) (repo commit 0d53a20): the sign, at least one integer digit and exactly
+   <precision> fraction digits of |digits| (as uint64, so MinInt64 prints as 9223372036854775808 scaled);
+   precision 0 prints the integer alone.  The precision is TypeOpts[0] truncated to uint8. *)
 Definition pad_zeros (w : nat) (s : str) : str := repeat 48 (w - List.length s) ++ s.
 
 Definition dec_str (v : tv) : option str :=
   match tv_opts v with
   | [] => Some [48]
   | p :: rest =>
-    let prec := Z.modulo p 256 in
+    let prec := Z.to_nat (Z.modulo p 256) in
     let d0 := wrap64 (Z.of_N (be_nat (tv_bytes v))) in
     let digits := match rest with 1%Z :: _ => wrap64 (- d0) | _ => d0 end in
-    if Z.eqb prec 0 then Some (dec_of_Z digits)
-    else if Z.leb prec 18 then
-      let dv := Z.pow 10 prec in
-      Some (dec_of_Z (Z.quot digits dv) ++ [46] ++ pad_zeros (Z.to_nat prec) (dec_of_N (Z.abs_N (Z.rem digits dv))))
-    else None
+    match prec with
+    | O => Some (dec_of_Z digits)
+    | _ =>
+      let text := pad_zeros (S prec) (dec_of_N (Z.abs_N digits)) in
+      let k := (List.length text - prec)%nat in
+      let body := firstn k text ++ [46] ++ skipn k text in
+      Some (if Z.ltb digits 0 then 45 :: body else body)
+    end
   end.
 
 Definition wide (v : tv) : bool :=
@@ -207,7 +210,7 @@ Definition leaf_of (rfc : bool) (v : tv) : leafres :=
           | _ => LVal (GOpq (if rfc && wide v then B "[]string" else B "[]uint64"))
           end
   | 11 => LVal (GOpq (B "[]bool"))
-  | 12 => LVal (GOpq (B "[]float64"))
+  | 12 => LVal (GOpq (if rfc then B "[]string" else B "[]float64"))
   | 13 => LVal (GOpq (B "[]float32"))
   | 14 => LVal (GOpq (B "[][]uint8"))
   | t => LVal (GStr (B "unexpected " ++ dec_of_N t))
